@@ -288,19 +288,27 @@ def m_pattern_match(interp, self, args, kwargs):
                                      [chr(rest_items[0][1])], {})
             if not interp.st.fork(ok if not isinstance(ok, bool) else ok):
                 return None
+            cond = True
         else:
-            if not interp.st.fork(wrap(z3.InRe(rt, _full(_seq(rest_items), anchor)))):
-                return None
+            cond = wrap(z3.InRe(rt, _full(_seq(rest_items), anchor)))
         o = new_opaque(interp, MatchI, 'match')
         o._pv_ghost.update(subject=rt, body=_seq(rest_items), anchor=anchor,
                            offset=wrap(z3.Length(t) - z3.Length(rt)))
-        return o
+        if cond is True:
+            return o
+        if cond is False:
+            return None
+        return SOpt(z3.Not(cond.t), o)
     body, anchor = transcribe(self)
-    if not interp.st.fork(wrap(z3.InRe(t, _full(body, anchor)))):
-        return None
+    # an optional match object: `m is None` / `if m:` are terms, no case split unless the match is used
+    cond = wrap(z3.InRe(t, _full(body, anchor)))
     o = new_opaque(interp, MatchI, 'match')
     o._pv_ghost.update(subject=t, body=body, anchor=anchor)
-    return o
+    if cond is True:
+        return o
+    if cond is False:
+        return None
+    return SOpt(z3.Not(cond.t), o)
 
 
 @models.method_model(re.Pattern, 'fullmatch')
@@ -319,9 +327,13 @@ def m_pattern_fullmatch(interp, self, args, kwargs):
         raise PyRaise(TypeError('expected string or bytes-like object'))
     body, anchor = transcribe(self)
     interp.st.used_models.add('re.Pattern.fullmatch[%r]' % self.pattern)
-    if not interp.st.fork(wrap(z3.InRe(to_z3(s), body))):
+    cond = wrap(z3.InRe(to_z3(s), body))
+    o = new_opaque(interp, Interface, 'fullmatch')
+    if cond is True:
+        return o
+    if cond is False:
         return None
-    return new_opaque(interp, Interface, 'fullmatch')
+    return SOpt(z3.Not(cond.t), o)
 
 
 def language_of(pattern):
